@@ -1,9 +1,12 @@
 import OrbitModel.Generated.GenTopic
+import OrbitModel.Generated.GenNewPeer
 /-!
 # Regenerated Go fragment = hand-written model (tie 2)
 -/
 namespace Orbit
 
 theorem gen_store_topic_is_address : Gen.storeTopicIsAddress = true := by decide
+
+theorem gen_newpeer_event_has_address : Gen.newPeerEventHasAddress = true := by decide
 
 end Orbit
